@@ -5,7 +5,7 @@ cd "$(dirname "$0")/.." || exit 2
 ./setup.sh > /dev/null 2>&1 || { echo "setup failed"; exit 2; }
 mkdir -p out
 [ $# -eq 0 ] && set -- $(ls harmless/*.diff | xargs -n1 basename | sed 's/\.diff$//')
-printf '%s\n' "$@" | xargs -P 4 -I{} sh -c 'tools/try_patch_wt.sh harmless/{}.diff > out/H_{}.txt 2>&1'
+printf '%s\n' "$@" | xargs -P ${HP:-4} -I{} sh -c 'tools/try_patch_wt.sh harmless/{}.diff > out/H_{}.txt 2>&1'
 bad=0
 for s in "$@"; do
   if grep -v "exit=0 0 viol" out/H_$s.txt | grep -q "exit="; then echo "== $s ALARMS"; grep -v "exit=0 0 viol" out/H_$s.txt; bad=1; else echo "== $s silent"; fi
